@@ -153,6 +153,7 @@ func checkC33(h *hx.H, c c33Case) {
 		frames[m[1]] = ks
 	}
 	boards := make([][]kf, n)
+	collapsed := false
 	for i, name := range names {
 		ks, ok := frames[name]
 		if !ok || len(ks) == 0 {
@@ -173,6 +174,12 @@ func checkC33(h *hx.H, c c33Case) {
 		var ded []kf
 		for _, k := range sorted {
 			if len(ded) > 0 && ded[len(ded)-1].off == k.off {
+				// Two keyframes that makeKeyframe computes 1 ms apart were printed as the same
+				// offset (%f keeps six decimals of a per cent): the 1 ms fade becomes a ramp from
+				// the previous keyframe. (Board 0 legitimately has "0%, 0%" twice.)
+				if ded[len(ded)-1].val != k.val && !(i == 0 && k.off == 0) {
+					collapsed = true
+				}
 				ded[len(ded)-1] = k
 			} else {
 				ded = append(ded, k)
@@ -212,6 +219,9 @@ func checkC33(h *hx.H, c c33Case) {
 			if i == want {
 				if v < 1-1e-9 {
 					sig := "current-board-not-visible"
+					if collapsed {
+						sig = "fade-longer-than-1ms:percent-print-precision"
+					}
 					h.FailSoft(sig, "n=%d T=%d: at t=%vms (interval %d) board %d has opacity %v", n, T, t, want, i, v)
 					return
 				}
@@ -223,6 +233,8 @@ func checkC33(h *hx.H, c c33Case) {
 				case v >= 1-1e-9 && n > 100 && i < want && i < n-1:
 					// an earlier, non-last board that never fades out
 					sig = "two-visible:n>100"
+				case collapsed:
+					sig = "fade-longer-than-1ms:percent-print-precision"
 				case v >= 1-1e-9:
 					sig = "two-visible"
 				}
@@ -276,6 +288,9 @@ func checkC33(h *hx.H, c c33Case) {
 	}
 	if slack > 0.5 {
 		h.Label("print-rounding-slack>0.5ms")
+	}
+	if collapsed {
+		h.Label("keyframes-collapsed-by-%f")
 	}
 	if asserted == 0 {
 		h.Label("nothing-outside-transition-windows")
